@@ -136,6 +136,13 @@ impl KBucket {
     }
 
     fn add_node(&mut self, node: NodeInfo) -> Result<()> {
+        // A peer is listed at most once: seeing it again refreshes its entry and
+        // moves it to the most-recently-seen end.
+        if let Some(pos) = self.nodes.iter().position(|n| n.id == node.id) {
+            self.nodes.remove(pos);
+            self.nodes.push(node);
+            return Ok(());
+        }
         if self.nodes.len() < self.max_size {
             self.nodes.push(node);
             Ok(())
@@ -179,6 +186,11 @@ impl KademliaRoutingTable {
     }
 
     fn add_node(&mut self, node: NodeInfo) -> Result<()> {
+        // The local node is never an entry of its own table (it would land in the
+        // last bucket and be handed out in closest-node answers).
+        if node.id == self.node_id {
+            return Ok(());
+        }
         let bucket_index = self.get_bucket_index(&node.id);
         self.buckets[bucket_index].add_node(node)
     }
